@@ -15,29 +15,36 @@ LEVEL_TEXT = ('Partial. Coq theorems over R: tau of project_to_boundary_with_coe
               '|z+tau d|^2=Delta^2); solve_trust_region_minimization (hand model using the generated kernels) for ARBITRARY symmetric linear '
               'Hessian oracle and positive preconditioner oracle, both inner-product modes: model value never increases, is <= the model value of '
               'every step along the Cauchy direction inside the region, tag interior => Newton residual < cgTolSquared; Euclidean mode: |z|<=Delta '
-              'and =Delta when tagged boundary/neg curve; dogleg_step is on the path 0->cp->np and inside the radius in the mat_mul norm; '
+              'and =Delta when tagged boundary/neg curve; preconditioned inner-product mode with precond = M^-1, M symmetric positive definite (full CG conjugacy induction): '
+              'at every pass the loop reaches the tracked zz, zd, dd (update_step_length_squared / Gould recurrences, generated kernels) equal z.Mz, z.Md, d.Md, '
+              'hence z.Mz<=Delta^2 and =Delta^2 when tagged boundary/neg curve; dogleg_step is on the path 0->cp->np and inside the radius in the mat_mul norm; '
               'More-Sorensen sufficiency lemma; treigen hard case (as repaired by repo commit 5a997d7, findings F2/F2d fixed): step on the boundary and optimal up to 2|tau|eps*Delta under eigen hypotheses; binary64 witnesses for the open findings F2b (zero Hessian -> NaN) and F2c (uncapped secular loop stalls). '
-              'Not proved (tested by correspondence/L2 only): radius in the preconditioned inner product (needs CG conjugacy), '
-              'optimality of the interior/secular branches of treigen.solve under an eigh contract, EquationSolverSubspace.trust_region_cg beyond its tau kernel, '
-              'the Cauchy clause for the 0-iteration early return.')
+              'treigen.solve (model with eigh as oracle) returns a global minimiser, ONE theorem from the eigh contract (sig ascending, V orthogonal, A = V diag(sig) V^T; transpose_n proved to be the transpose): '
+              'interior |p|<Delta and optimal over the ball; hard case |p|=Delta and optimal up to 4*eps*Delta^2, eps=1e-12*mean|sig|; secular branch | |p|-Delta | <= 1e-9*Delta and optimal over the ball of radius |p| '
+              '(Newton iterates of the secular equation proved to stay on the side |p(lam)|>=Delta, so the multiplier is admissible); guards Delta>0, A<>0 (F2b); nothing claimed when the fuel of the secular loop runs out. '
+              'Not proved (tested by correspondence/L2 only): termination of the uncapped secular loop (F2c), the eigh contract itself (measured on every run), '
+              'EquationSolverSubspace.trust_region_cg beyond its tau kernel, '
+              'the Cauchy clause for the 0-iteration early return; binary64 drift of the recurrences (theorems are over R; the harness measures the drift on the first 4 passes, stream gould).')
 TECHNIQUE = 'Coq proof (Reals, nra/lra) on generated scalar kernels + hand models; vm_compute/PrimFloat correspondence and binary64 witnesses'
 GEN = ['EquationSolver', 'EquationSolverSubspace']
 TARGETS = ['model/M_C06_Vec.vo', 'model/M_C06_CG.vo', 'model/M_C06_Treigen.vo', 'proofs/L_C06_Vec.vo', 'proofs/L_C06_CG.vo',
-           'proofs/L_C06_Dogleg.vo', 'proofs/L_C06_Treigen.vo']
+           'proofs/L_C06_CGpc.vo', 'proofs/L_C06_Dogleg.vo', 'proofs/L_C06_Treigen.vo', 'proofs/L_C06_TreigenFull.vo']
 COQ_FILES = ['base/Num.v', 'model/M_C06_Vec.v', 'model/M_C06_CG.v', 'model/M_C06_Treigen.v', 'proofs/L_C06_Vec.v', 'proofs/L_C06_CG.v',
-             'proofs/L_C06_Dogleg.v', 'proofs/L_C06_Treigen.v', 'props/P_C06.v']
+             'proofs/L_C06_CGpc.v', 'proofs/L_C06_Dogleg.v', 'proofs/L_C06_Treigen.v', 'proofs/L_C06_TreigenFull.v', 'props/P_C06.v']
 TRUSTED = ['Coq 8.16.1 kernel + vm_compute (no native_compute)',
            'tools/vlib/py2coq.py translator for the scalar kernels (cross-checked at binary64 against the implementation)',
            'hand models model/M_C06_CG.v, M_C06_Treigen.v tied only by the correspondence (tags, iteration counts exact; vectors within stated tolerance)',
            'harness: float<->(mantissa,exponent) exchange, near-tie rule (relative margin < 1e-9 of a branch comparison, or the result of the implementation itself moving beyond tolerance under <= 2 ulp entrywise noise on its operators => not compared, counted as unstable), reference optimum for treigen',
            'theorems are over exact reals; binary64 rounding is covered only by the correspondence']
 ASSUMPTIONS = ['hess_vec_func is a symmetric linear map and precond is positive (v.Pv > 0 for v != 0) on vectors of the problem dimension (section hypotheses of the CG theorem)',
-               'mat_mul is symmetric linear positive semidefinite (dogleg theorem)', 'numpy eigh is an oracle (its output is logged and fed to the model)',
+               'preconditioned-radius theorems: precond is the inverse of a symmetric positive definite operator M (M(P v) = v, a.Mb = Ma.b, v.Mv > 0 for v != 0) and hess_vec_func is symmetric',
+               'mat_mul is symmetric linear positive semidefinite (dogleg theorem)', 'numpy eigh is an oracle (its output is logged and fed to the model); its contract -- sig ascending, V^T V = V V^T = I, A = V diag(sig) V^T -- is the hypothesis of C06_treigen_global_minimiser and is measured on the logged output of every run (tolerance 1e-12)',
                'settings.cg_tol != 0 and max_cg_iters >= 1', 'exact real arithmetic in theorems']
 RULE = ('synthetic operators H = Q diag(sig) Q^T (sig drawn from definite / indefinite / singular / repeated families), SPD preconditioners (identity, exact, diagonal, poor), '
         'g random or orthogonal to the lowest eigenspace, radii 10^U(-6,6), both inner-product modes, max_cg_iters in {1,2,3,50}; dims 1..8 quick, 1..40 thorough; '
         'a case is non-trivial when the solver iterates at least once (CG), or the dogleg/treigen branch is not the trivial pass-through; distinct = distinct input tuples; '
-        'exact-switch stream with dyadic data placed on |z|=Delta and curvature=0')
+        'exact-switch stream with dyadic data placed on |z|=Delta and curvature=0; stream gould: dims 2..8, precond = inverse of a generated SPD M (cond <~ 100), 70% SPD Hessians, '
+        'radii 10^U(-1,4), cg_inexact_solve_ratio 1e-3, the scalar kernels wrapped to log zz, zd, dd per pass (distribution of exits / continuing passes in branch_histogram)')
 IMPORTS = ['From OV.gen Require Import Gen_EquationSolver Gen_EquationSolverSubspace.',
            'From OV.model Require Import M_C06_Vec M_C06_CG M_C06_Treigen.']
 TAGS = {'interior': 0, 'boundary': 1, 'neg curve': 2, 'interior_': 3}
@@ -140,6 +147,33 @@ def gen_cg_cases(ctx, stream, count, nmax):
     return out
 
 
+GOULD_PASSES = 4     # the drift check covers the first passes of each run (binary64 CG loses conjugacy later: see concl_gould)
+
+
+def gen_gould_cases(ctx, count):
+    """preconditioned inner-product mode with precond = M^-1 for a generated SPD M (kept in the case): the hypotheses of
+    C06_cg_gould_recurrences / C06_cg_radius_preconditioned; spectra biased to SPD and radii to large so that several passes continue"""
+    r = ctx.rng('gould')
+    out = []
+    for _ in range(count):
+        n = r.randrange(2, 9)
+        if r.random() < 0.7:
+            skind, sig, q = 'spd', onp.array(sorted(10 ** r.uniform(-1, 1) for _ in range(n))), rand_orth(r, n)
+            h = (q * sig) @ q.T
+            h = 0.5 * (h + h.T)
+        else:
+            skind, sig, q, h = gen_operator(r, n)
+        b = onp.array([[r.gauss(0, 1) for _ in range(n)] for _ in range(n)])
+        m = b @ b.T + (0.3 + r.random()) * onp.eye(n)
+        m = 0.5 * (m + m.T)
+        p = onp.linalg.inv(m)
+        p = 0.5 * (p + p.T)
+        g = onp.array([r.gauss(0, 1) for _ in range(n)])
+        out.append(dict(kind='cg', n=n, H=h.tolist(), P=p.tolist(), M=m.tolist(), g=g.tolist(), tr=10 ** r.uniform(-1, 4), pc=True, mx=50,
+                        cgtol=1e-9, ratio=1e-3, spectrum=skind, precond='inverse of SPD M'))
+    return out
+
+
 def gen_exact_switch_cases():
     """dyadic data: every operation is exact in binary64, inputs sit exactly on / next to the branch switches"""
     out = []
@@ -217,6 +251,37 @@ def run_cg_impl(case, mods, which='cg', noise=None):
     pg = pv(g)
     z, tag, it = quiet(SS.trust_region_cg, jnp.zeros(n), g, pg, hv(pg), hv, pv, case['tr'], st)
     return dict(z=[float(v) for v in z], tag=tag, iters=int(it))
+
+
+def run_gould_impl(case, mods):
+    """solve_trust_region_minimization with the two module-level scalar kernels wrapped (looked up at call time by the solver):
+    logs, for each pass that continues, the iterate z, the new direction d, the recurrence values (zd, dd) and the zz handed to the next pass"""
+    jnp, ES, SS, _ = mods
+    n = case['n']
+    hj, pj = jnp.array(case['H']), jnp.array(case['P'])
+    st = ES.get_settings(max_cg_iters=case['mx'], cg_tol=case['cgtol'], cg_inexact_solve_ratio=case['ratio'],
+                         use_preconditioned_inner_product_for_cg=True)
+    passes = []
+    first = {}
+    o1, o2 = ES.cg_inner_products_preconditioned, ES.update_step_length_squared
+
+    def w1(alpha, beta, zd, dd, rPr, z, d):
+        res = o1(alpha, beta, zd, dd, rPr, z, d)
+        passes.append(dict(z=[float(v) for v in z], d=[float(v) for v in d], zd=float(res[0]), dd=float(res[1]), zz=None))
+        return res
+
+    def w2(alpha, zz, zd, dd):
+        if not first:
+            first.update(zz=float(zz), zd=float(zd), dd=float(dd))
+        if passes and passes[-1]['zz'] is None:
+            passes[-1]['zz'] = float(zz)
+        return o2(alpha, zz, zd, dd)
+    ES.cg_inner_products_preconditioned, ES.update_step_length_squared = w1, w2
+    try:
+        z, cp, tag, it = quiet(ES.solve_trust_region_minimization, jnp.zeros(n), jnp.array(case['g']), lambda v: hj @ v, lambda v: pj @ v, case['tr'], st)
+    finally:
+        ES.cg_inner_products_preconditioned, ES.update_step_length_squared = o1, o2
+    return dict(z=[float(v) for v in z], cp=[float(v) for v in cp], tag=tag, iters=int(it), passes=passes[:GOULD_PASSES], npasses=len(passes), first=first)
 
 
 def cg_margin(case, which='cg'):
@@ -425,6 +490,30 @@ def concl_cg(case, out, which='cg'):
     return bad
 
 
+def concl_gould(case, out, tol=1e-9):
+    """conclusion of C06_cg_gould_recurrences on the implementation: the tracked zz, zd, dd are the M-inner products of the iterates.
+    Tolerance: 1e-9 relative (zd: relative to sqrt(z.Mz * max dd so far)), for the first GOULD_PASSES continuing passes only -- in binary64
+    z.r (zero in exact arithmetic) grows by up to ~100x per pass on ill-conditioned P H, measured <= 1e-13 within these passes."""
+    bad = []
+    m, p, g = onp.array(case['M']), onp.array(case['P']), onp.array(case['g'])
+    d0 = -(p @ g)
+    f = out.get('first') or {}
+    ddmax = float(d0 @ m @ d0)
+    if f and not (f['zz'] == 0.0 and f['zd'] == 0.0 and abs(f['dd'] - ddmax) <= tol * ddmax):
+        bad.append('start of the loop: (zz, zd, dd) = (%r, %r, %r) but the M-inner products are (0, 0, %r)' % (f['zz'], f['zd'], f['dd'], ddmax))
+    for k, ps in enumerate(out['passes']):
+        z, d = onp.array(ps['z']), onp.array(ps['d'])
+        mzz, mzd, mdd = float(z @ m @ z), float(z @ m @ d), float(d @ m @ d)
+        ddmax = max(ddmax, mdd)
+        if not abs(ps['dd'] - mdd) <= tol * mdd:
+            bad.append('pass %d: recurrence dd = %.17g but d.Md = %.17g' % (k + 1, ps['dd'], mdd))
+        if not abs(ps['zd'] - mzd) <= tol * math.sqrt(mzz * ddmax):
+            bad.append('pass %d: recurrence zd = %.17g but z.Md = %.17g' % (k + 1, ps['zd'], mzd))
+        if ps['zz'] is not None and not abs(ps['zz'] - mzz) <= tol * mzz:
+            bad.append('pass %d: tracked zz = %.17g but z.Mz = %.17g' % (k + 1, ps['zz'], mzz))
+    return bad
+
+
 def concl_dogleg(case, r):
     bad = []
     m, cp, np_ = onp.array(case['M']), onp.array(case['cp']), onp.array(case['np'])
@@ -458,7 +547,29 @@ def treigen_branch(case, out):
     return 'secular'
 
 
+def eigh_contract(case, out, tol=1e-12):
+    """hypotheses of C06_treigen_global_minimiser measured on what treigen.solve received from eigh: sig ascending, V^T V = V V^T = I,
+    A = V diag(sig) V^T (entrywise, relative to max|A|); measured <= 6e-15 for n <= 40"""
+    sig, v, a = onp.array(out['sig']), onp.array(out['V']), onp.array(case['A'])
+    n = len(sig)
+    bad = []
+    if v.shape != (n, n) or a.shape != (n, n):
+        return ['eigh returned shapes %r, %r for a %r matrix' % (sig.shape, v.shape, a.shape)]
+    if not onp.all(onp.diff(sig) >= 0):
+        bad.append('eigenvalues not ascending')
+    e1 = max(float(onp.abs(v.T @ v - onp.eye(n)).max()), float(onp.abs(v @ v.T - onp.eye(n)).max()))
+    if not e1 <= tol:
+        bad.append('V not orthogonal: max|V^T V - I| = %.3g' % e1)
+    e2 = float(onp.abs((v * sig) @ v.T - a).max()) / max(float(onp.abs(a).max()), 1e-300)
+    if not e2 <= tol:
+        bad.append('A != V diag(sig) V^T: relative residual %.3g' % e2)
+    return bad
+
+
 def concl_treigen(case, out):
+    """conclusion of C06_treigen_global_minimiser on the implementation, per branch: interior |p| < Delta; hard |p| = Delta (1e-10 relative,
+    measured 1e-15); secular | |p| - Delta | <= (1e-9 + 1e-12) Delta (the loop's exit test, measured <= 9.93e-10); every branch: model value
+    within 1e-6*scale of the independent reference optimum (the theorem's hard-case slack 4*eps*Delta^2, eps = 1e-12*mean|sig|, is far below that)"""
     bad = []
     if out['p'] is None:
         return ['treigen.solve did not terminate (secular iteration %s)' % ('stalls at a fixed point of lam with |bError| > 1e-9' if out.get('stalled') else 'ran for 60 s')]
@@ -466,8 +577,16 @@ def concl_treigen(case, out):
     if not onp.all(onp.isfinite(p)):
         return ['non-finite step']
     delta = case['Delta']
-    if onp.linalg.norm(p) > delta * (1 + 1e-8):
-        bad.append('step outside the ball: %.17g > %.17g' % (onp.linalg.norm(p), delta))
+    br = out.get('branch') or treigen_branch(case, out)
+    pn = float(onp.linalg.norm(p))
+    if pn > delta * (1 + 1e-8):
+        bad.append('step outside the ball: %.17g > %.17g' % (pn, delta))
+    elif br == 'interior' and not pn < delta * (1 + 1e-12):
+        bad.append('interior branch but |p| = %.17g is not below the radius %.17g' % (pn, delta))
+    elif br == 'hard' and not abs(pn - delta) <= 1e-10 * delta:
+        bad.append('hard-case step is not on the boundary: |p| = %.17g, radius %.17g' % (pn, delta))
+    elif br == 'secular' and not abs(pn - delta) <= (1e-9 + 1e-12) * delta:
+        bad.append('secular step misses the boundary by more than 1e-9: |p| = %.17g, radius %.17g' % (pn, delta))
     ref = treigen_reference(case['A'], case['b'], delta)
     e = energy(case['A'], case['b'], p)
     a = onp.array(case['A'])
@@ -538,7 +657,7 @@ def correspondence(ctx, model_ok):
     mods = _mods()
     jnp, ES, SS, treigen = mods
     nmax = ctx.n(8, 40)
-    cg_cases = gen_exact_switch_cases() + gen_cg_cases(ctx, 'cg', ctx.n(140, 600), nmax)
+    cg_cases = gen_exact_switch_cases() + gen_cg_cases(ctx, 'cg', ctx.n(140, 600), nmax) + gen_gould_cases(ctx, ctx.n(40, 200))
     ss_cases = [dict(c, pc=False) for c in gen_cg_cases(ctx, 'sscg', ctx.n(50, 200), nmax)]
     dl_cases = gen_dogleg_cases(ctx, ctx.n(80, 300), nmax)
     te_cases = gen_treigen_cases(ctx, ctx.n(100, 300), ctx.n(8, 40))
@@ -550,9 +669,16 @@ def correspondence(ctx, model_ok):
 
     # ---- run the implementation, L2
     cg_out = []
+    gould_passes = 0
     for c in cg_cases:
-        o = run_cg_impl(c, mods, 'cg')
+        o = run_gould_impl(c, mods) if 'M' in c else run_cg_impl(c, mods, 'cg')
         cg_out.append(o)
+        if 'M' in c:
+            bump('gould:%s after %s continuing passes' % (o['tag'], o['npasses'] if o['npasses'] < 4 else '>=4'))
+            gould_passes += len(o['passes'])
+            for b in concl_gould(c, o):
+                ctx.fail('conclusion', 'solve_trust_region_minimization (preconditioned inner product, precond = M^-1): ' + b,
+                         case=dict(c, kind='gould', impl=dict(o, passes=None)), concrete=True)
         bump('cg:' + o['tag'] + (':pc' if c['pc'] else ':euclid'))
         if o['iters'] > 0:
             distinct.add(('cg', json.dumps([c['H'], c['P'], c['g'], c['tr'], c['pc'], c['mx'], c['cgtol'], c['ratio']])))
@@ -577,6 +703,7 @@ def correspondence(ctx, model_ok):
         for b in concl_dogleg(c, r):
             ctx.fail('conclusion', 'dogleg_step: ' + b, case=dict(c, impl=r), concrete=True)
     te_out = []
+    eigh_bad = 0
     for c in te_cases:
         o = run_treigen_impl(c, mods)
         o['branch'] = treigen_branch(c, o)
@@ -585,6 +712,10 @@ def correspondence(ctx, model_ok):
         distinct.add(('te', json.dumps([c['A'], c['b'], c['Delta']])))
         for b in concl_treigen(c, o):
             ctx.fail('conclusion', 'treigen.solve (%s branch): %s' % (o['branch'], b), case=dict(c, impl=o, branch=o['branch'], stalled=o['stalled']), concrete=True)
+        for b in eigh_contract(c, o):
+            eigh_bad += 1
+            ctx.fail('assumption', 'eigh contract assumed by C06_treigen_global_minimiser does not hold for what treigen.solve received: ' + b,
+                     case=dict(c, impl=o, branch=o['branch']))
     # generated scalar kernels on the implementation
     ks = kernel_cases(ctx)
     k_impl = []
@@ -602,6 +733,9 @@ def correspondence(ctx, model_ok):
     ctx.count('evaluations', total)
     ctx.count('distinct_nontrivial', len(distinct))
     ctx.count('conclusion_checks', total)
+    ctx.count('gould_recurrence_passes_checked', gould_passes)
+    ctx.count('eigh_contract_checks', len(te_cases))
+    ctx.count('eigh_contract_violations', eigh_bad)
     ctx.cov['branch_histogram'] = hist
     ctx.sample(dict(kind='cg', n=cg_cases[-1]['n'], tr=cg_cases[-1]['tr'], tag=cg_out[-1]['tag'], iters=cg_out[-1]['iters']))
     ctx.sample(dict(kind='treigen', n=te_cases[0]['n'], Delta=te_cases[0]['Delta'], branch=te_out[0]['branch']))
@@ -802,6 +936,9 @@ def replay(ctx, path):
         bad = concl_cg(case, run_cg_impl(case, mods, 'cg'), 'cg')
     elif k == 'sscg':
         bad = concl_cg(case, run_cg_impl(case, mods, 'ss'), 'ss')
+    elif k == 'gould':
+        o = run_gould_impl(case, mods)
+        bad = concl_gould(case, o) + concl_cg(case, o, 'cg')
     elif k == 'dogleg':
         mj = jnp.array(case['M'])
         r = quiet(ES.dogleg_step, jnp.array(case['cp']), jnp.array(case['np']), case['tr'], lambda v: mj @ v)
